@@ -4,7 +4,7 @@ import json, os, re, sys
 rows = {}
 for path in sys.argv[1:]:
     for line in open(path):
-        m = re.match(r"(\S+) vs (C\d+): mutant exit=(\d+) violations=(\d+) harnesses: (.*)", line.strip())
+        m = re.match(r"(\S+) vs (C\d+): mutant exit=(\d+) violations=(\d+) harnesses:\s*(.*)", line.strip())
         if not m:
             continue
         mut, prop, rc, nv, hs = m.groups()
